@@ -97,18 +97,20 @@ Section Cbor.
 
   (* an item made of times under TimeRFC3339 (UTC year 0..9999) meets the decode-side premises *)
   Lemma cbor_time_ok_t : forall (O : eopts) (D : dopts) (d : Z) (s : Z) (n : N) (e : unit) (tl : list N),
-    eo_rfc3339 O = true -> Wire.CborTime.year_ok s = true -> (n < 1000000000)%N -> (d + 1 < maxdepth D)%Z ->
+    eo_rfc3339 O = true -> Wire.CborTime.year_ok s = true -> (n < 1000000000)%N ->
+    (- 9223372036854775808 <= s < 9223372036854775807)%Z -> (0 <= d)%Z -> (d + 1 < maxdepth D)%Z ->
     CborI.ok_t O D d (ITime s n) e tl.
   Proof.
-    intros O D d s n e tl Hr Hy Hn Hd.
+    intros O D d s n e tl Hr Hy Hn Hs Hd0 Hd.
     destruct (time_rfc3339_lemma O D s n Hr Hy Hn) as (H1 & H2 & _).
-    unfold CborI.ok_t. repeat apply conj.
+    unfold CborI.ok_t. split; [|split; [|split; [|split]]].
     - cbn [wf]. exact Hn.
-    - exact I.
+    - cbn [plain]. exact Hs.
     - exact H1.
     - rewrite H2. lia.
     - assert (Hsd : (sdepth (tree_of O (ITime s n)) <= 1)%Z).
-      { cbn [tree_of]. destruct ((s =? zero_time_sec)%Z && (n =? 0)%N); [cbn; lia|]. rewrite Hr. cbn. lia. }
+      { cbn [tree_of]. unfold time_tree. destruct (andb (s =? zero_time_sec)%Z (n =? 0)%N); [cbn; lia|]. rewrite Hr.
+        cbn [sdepth]. unfold str_tree. repeat match goal with |- context [if ?c then _ else _] => destruct c end; cbn [sdepth]; lia. }
       lia.
   Qed.
 
